@@ -810,10 +810,13 @@ pub fn binop(op: Op, a: &V, b: &V) -> Out {
             V::List(l) => {
                 let mut unspec = false;
                 for x in l {
-                    // membership on same-type elements; cross-type comparisons are left open
+                    // membership on same-type elements; cross-type comparisons are left open - also
+                    // when they happen inside nested containers (`[2u] in [[2]]`): only an element
+                    // that is identical, types included, is certainly a member
                     if std::mem::discriminant(x) == std::mem::discriminant(a) {
                         match equal(a, x) {
-                            EqR::Yes => return Out::Val(V::Bool(true)),
+                            EqR::Yes if a.canon() == x.canon() => return Out::Val(V::Bool(true)),
+                            EqR::Yes => unspec = true,
                             EqR::Unspec => unspec = true,
                             EqR::No => {}
                         }
